@@ -313,6 +313,24 @@ func init() {
 					return "walk-differs-from-reflection", d, false
 				}
 			}
+			// "each once": the tree is a tree -- no node value is reachable along two paths (a shared pointer would be visited twice,
+			// the second time out of source order)
+			seen := map[[2]uintptr]bool{}
+			shared := ""
+			ast.Inspect(root, func(n ast.Node) bool {
+				v := reflect.ValueOf(n)
+				if v.Kind() == reflect.Ptr && !v.IsNil() {
+					key := [2]uintptr{reflect.ValueOf(v.Type()).Pointer(), v.Pointer()}
+					if seen[key] && shared == "" {
+						shared = fmt.Sprintf("%s@%d", typeName(n), n.Pos())
+					}
+					seen[key] = true
+				}
+				return true
+			})
+			if shared != "" {
+				return "node-visited-twice", shared + " is reachable along two paths", false
+			}
 			// Inspect = preorder of all nodes; Preorder stops as soon as the consumer stops
 			var pre []string
 			for _, ni := range allNodes([]ast.Node{root}) {
